@@ -153,8 +153,8 @@ Section Ring32.
     | None => None
     | Some (_, d) => Some ((d =? 1) || (d =? -1))
     end.
-  Definition div32 (a b : Z) : option Z :=          (* mulin(inv(r,b), a) *)
-    match inv b with None => None | Some r => Some (mulin r a) end.
+  Definition div32 (a b : Z) : option Z :=          (* Element ib; return mul(r, a, inv(ib, b)); *)
+    match inv b with None => None | Some ib => Some (mul32 a ib) end.
   Definition divin (r a : Z) : option Z :=        (* inv(ia,a); mulin(r,ia) *)
     match inv a with None => None | Some ia => Some (mulin r ia) end.
   Definition invin (r : Z) : option Z := inv r.
@@ -176,11 +176,12 @@ Section Ring32.
   Definition init_uint64 (a : Z) : Z := init_tail false (u32 (a mod (u64 p))).
   (* init(Element&, const Integer&): ((a<0)?-a:a) % _p on Integer is exact *)
   Definition init_integer (a : Z) : Z := init_tail (a <? 0) (u32 (Z.abs a mod p)).
-  (* template init (every other arithmetic T): init(r, Caster<int64_t>(a)) *)
+  (* template init (every other arithmetic T): init(r, Caster<Wide>(a)) with Wide = double for floating-point T,
+     uint64_t for unsigned T, int64_t for signed T (montgomery-int32.h, std::conditional on is_floating_point / is_unsigned) *)
   Definition init_int32 (a : Z) : Z := init_int64 (s64 a).
-  Definition init_uint32 (a : Z) : Z := init_int64 (s64 a).
+  Definition init_uint32 (a : Z) : Z := init_uint64 (u64 a).
   Definition init_longlong (a : Z) : Z := init_int64 (s64 a).
-  Definition init_ulonglong (a : Z) : Z := init_int64 (s64 a).
+  Definition init_ulonglong (a : Z) : Z := init_uint64 (u64 a).
 
   (* convert: r = Caster<T>(redc(c, a)) *)
   Definition convert (a : Z) : Z := redc a.
@@ -289,6 +290,14 @@ Section RecIntMG.
     if a <? b then (a + ((p - b) mod B)) mod B else (a - b) mod B.
   Definition rm_neg (p : Z) (b : Z) : Z := if b =? 0 then 0 else (p - b) mod B.
 
+  (* |b| of a native signed b taken on the ruint (rmgrmint.h / rmbrmint.h as repaired by fix-7): ruint<K>(b) is the two's complement
+     b mod B, `Value = -Value` for b < 0 is the negation modulo B *)
+  Definition abs_ru (b : Z) : Z := let v := b mod B in if b <? 0 then (- v) mod B else v.
+  (* HISTORY, not extracted: the body before fix-7 negated in the native type T of width wbits, Value((b<0)? -b : b): for the most
+     negative value -b wraps to b itself and the ruint constructor takes B - |b| *)
+  Definition abs_in_type_old (wbits b : Z) : Z :=
+    let nb := if b <? 0 then ((- b + 2 ^ (wbits - 1)) mod 2 ^ wbits) - 2 ^ (wbits - 1) else b in nb mod B.
+
   (* LSB-first square and multiply, n loop turns (ruexp.h exp_mod; rmgexp.h UDItype version stops at exp = 0) *)
   Fixpoint pow_lsb (mul : Z -> Z -> Z) (n : nat) (a x e : Z) : Z :=
     match n with
@@ -319,8 +328,8 @@ Section RecIntMG.
     (* constructors (rmgrmint.h) *)
     Definition mga_of_ruint (c : Z) : Z := mga_to_mg c.                   (* rmint(const ruint<K>&), mpz_to_rmint *)
     Definition mga_of_unsigned (b : Z) : Z := mga_to_mg b.                (* rmint(T b), T unsigned *)
-    Definition mga_of_signed (b : Z) : Z :=                               (* Value(|b|); mod_n; if (b<0) sub(Value,p,Value); to_mg *)
-      let v := (Z.abs b) mod p in
+    Definition mga_of_signed (b : Z) : Z :=          (* as repaired by fix-7: Value(b); if (b<0) Value = -Value; mod_n; if (b<0) sub(Value,p,Value); to_mg *)
+      let v := (abs_ru b) mod p in
       let v := if b <? 0 then (p - v) mod B else v in
       mga_to_mg v.
     Definition mga_of_rint (c : Z) : Z :=                                 (* Value(|c|); to_mg; if (c<0) neg(this) *)
@@ -379,8 +388,8 @@ Section RecIntMG.
     Variable p : Z.
     Definition mgi_of_ruint (c : Z) : Z := c mod p.
     (* rmint(T b), T signed: Value(|b|); mod_n(Value, p); if (b < 0) neg(this)   [as repaired by frag/C07.fix-3] *)
-    Definition mgi_of_signed (b : Z) : Z :=
-      let v := (Z.abs b) mod p in if b <? 0 then rm_neg p v else v.
+    Definition mgi_of_signed (b : Z) : Z :=          (* Value(b); if (b<0) Value = -Value; mod_n; if (b<0) neg   [fix-3, fix-7] *)
+      let v := (abs_ru b) mod p in if b <? 0 then rm_neg p v else v.
     Definition mgi_of_rint (c : Z) : Z :=
       let v := (Z.abs c) mod p in if c <? 0 then rm_neg p v else v.
     Definition mgi_get_ruint (a : Z) : Z := a.
